@@ -13,10 +13,18 @@ _scratch = None
 
 
 def scratch():
-    """Private scratch directory for this process (under /dev/shm), removed at exit."""
+    """Private scratch directory for this process (under /dev/shm).  The first process of a check creates a root
+    directory and removes it at exit; pool workers (which are terminated without running atexit) make theirs inside it."""
     global _scratch
     if _scratch is None or _scratch[0] != os.getpid():
-        d = tempfile.mkdtemp(prefix='verif.%d.' % os.getpid(), dir='/dev/shm')
+        root = os.environ.get('VERIF_SCRATCH_ROOT')
+        if not root or not os.path.isdir(root):
+            root = tempfile.mkdtemp(prefix='verif.%d.' % os.getpid(), dir='/dev/shm')
+            os.environ['VERIF_SCRATCH_ROOT'] = root
+            atexit.register(shutil.rmtree, root, True)
+            _scratch = (os.getpid(), root)
+            return root
+        d = tempfile.mkdtemp(prefix='p%d.' % os.getpid(), dir=root)
         _scratch = (os.getpid(), d)
         atexit.register(shutil.rmtree, d, True)
     return _scratch[1]
@@ -117,6 +125,7 @@ _pool = None
 def pool(n=None):
     global _pool
     if _pool is None:
+        scratch()           # create the scratch root before forking, so that workers nest inside it
         n = n or int(os.environ.get('VERIF_JOBS', '16'))
         ctx = multiprocessing.get_context('fork')
         _pool = ctx.Pool(n, initializer=_init_worker)
